@@ -111,11 +111,15 @@ func vhRouting(opts ...Option) {
 	p, err := Build[vgWords](all...)
 	vAssert(err == nil, "catalogue grammar must build")
 	root := vhGrammarOf(reflect.TypeOf(vgWords{}), nil)
-	a1, e1 := p.ParseString(fn, in)
-	a2, e2 := p.ParseBytes(fn, []byte(in))
-	a3, e3 := p.Parse(fn, strings.NewReader(in))
+	// per-call options must reach every entry point alike
+	trailing := vBool("allowTrailing")
+	s1, s2, s3, s4 := &vhSink{}, &vhSink{}, &vhSink{}, &vhSink{}
+	a1, e1 := p.ParseString(fn, in, AllowTrailing(trailing), Trace(s1))
+	a2, e2 := p.ParseBytes(fn, []byte(in), AllowTrailing(trailing), Trace(s2))
+	a3, e3 := p.Parse(fn, strings.NewReader(in), AllowTrailing(trailing), Trace(s3))
 	vhSameError(e1, e2, "C15: ParseString vs ParseBytes")
 	vhSameError(e1, e3, "C15: ParseString vs Parse")
+	vAssert(s1.n == s2.n && s1.n == s3.n, "C15: the Trace option is not applied alike by ParseString, ParseBytes and Parse")
 	if e1 == nil {
 		vReach("parsed")
 	} else {
@@ -141,8 +145,9 @@ func vhRouting(opts ...Option) {
 		vAssert(ok1 && ok2 && pu.Position() == p1.Position(), "C15: lexing error at a different position")
 		return
 	}
-	a4, e4 := p.ParseFromLexer(pl)
+	a4, e4 := p.ParseFromLexer(pl, AllowTrailing(trailing), Trace(s4))
 	vhSameError(e1, e4, "C15: ParseString vs ParseFromLexer")
+	vAssert(s1.n == s4.n, "C15: the Trace option is not applied alike by ParseString and ParseFromLexer")
 	same(a1, a4, "C15: ParseString vs ParseFromLexer")
 
 	// Parser.Lex returns exactly the tokens the parse consumes
